@@ -79,7 +79,8 @@ RULE = ("time stamps / intervals / boxes on exhaustive small grids touching time
         "start - tb, low - fb, high + fb within 2^-20 .. 2^-40 of 0 / MAX_FREQUENCY at magnitudes 1 .. 1e7; every point of the "
         "0.01 s / 0.1 Hz buffer lattices; dense geometries with 16 .. 2000 vertices (each size threshold +-1) x seven smooth "
         "shapes; nine types x call shapes (keyword, positional, reversed keywords, mixed, zero buffers omitted) x number "
-        "representations (float, int, numpy float64 / float32 / int64, bool) x twelve construction paths (validator, "
+        "representations (float, int, bool, numpy float64 / float32 / float16, int8 .. int64, uint8 .. uint64, bool_; mixed "
+        "pairs, both buffers of one type, and the largest value of each narrow type) x twelve construction paths (validator, "
         "constructor, model_validate, JSON, copies, tuples, ints, numpy coordinates, subclass); histories: a call with an "
         "option for shapely.buffer followed by plain calls (8 options x 6 target types), and random sessions x, neighbour of x "
         "(other buffers / zero buffer / options / other call shape / other geometry), x again with reused argument objects "
@@ -91,7 +92,9 @@ TRUSTED = ["pydantic's coercion of the coordinate list before the field validato
            "buffer_shapely_geometry -> marker carrying the two buffers (dispatch trace); shapely.transform / buffer / "
            "clip_by_rect / to_geojson, json.loads -> stand-ins acting on a generic point and a bounding box (pipeline trace; "
            "a coordinate map is applied to the box corners, right for the increasing maps C11_pipeline_scaling proves them to be)",
-           "the spy around the `shapely` module seen by soundevent.geometry.operations (forwards every call unchanged)",
+           "the spy / guard around the `shapely` module seen by soundevent.geometry.operations (forwards every call "
+           "unchanged, except that shapely.buffer of a geometry with infinite / NaN coordinates -- on which GEOS can crash "
+           "the process -- is answered with an ArithmeticError: the call fails and is reported as such)",
            "during the dispatch traces symbolic numbers are hashable, `json.dumps` serialises them as their terms and the "
            "module-level containers of operations.py are put back before every replay (a trace describes a call in a fresh "
            "process; later calls are the business of the purity monitors and the histories)",
@@ -177,7 +180,13 @@ def _shp(gj):
 # ---------------------------------------------------------------- implementation adapters
 NAMES = {"tb": "time_buffer", "fb": "freq_buffer"}
 SHAPES = ("kw", "pos", "kwrev", "mixed", "omit")
-NUMS = ("float", "int", "np64", "np32", "npint", "bool")
+NUMS = ("float", "int", "np64", "np32", "npint", "bool",
+        # numpy scalars as they come out of typed arrays / parsed headers: unsigned integers (unary minus and
+        # subtraction wrap around in their own type), narrow signed integers, narrow floats
+        "npu8", "npu16", "npu32", "npu64", "npi8", "npi16", "npi32", "npf16", "npbool")
+_NP_INTS = {"npu8": ("uint8", 0, 2 ** 8), "npu16": ("uint16", 0, 2 ** 16), "npu32": ("uint32", 0, 2 ** 32),
+            "npu64": ("uint64", 0, 2 ** 64), "npi8": ("int8", -2 ** 7, 2 ** 7), "npi16": ("int16", -2 ** 15, 2 ** 15),
+            "npi32": ("int32", -2 ** 31, 2 ** 31)}
 PATHS = ("validate", "ctor", "mv", "json", "jsonrt", "copy", "deepcopy", "pycopy", "tuple", "intcoords", "npcoords", "subclass")
 
 
@@ -208,6 +217,12 @@ def _repr_num(q, kind):
         return np.float64(x)
     if kind == "np32" and float(np.float32(x)) == x:
         return np.float32(x)
+    if kind in _NP_INTS and q.denominator == 1 and _NP_INTS[kind][1] <= q < _NP_INTS[kind][2]:
+        return getattr(np, _NP_INTS[kind][0])(int(q))
+    if kind == "npf16" and abs(x) <= 2048 and float(np.float16(x)) == x:
+        return np.float16(x)
+    if kind == "npbool" and q in (0, 1):
+        return np.bool_(bool(q))
     return x
 
 
@@ -245,10 +260,12 @@ def _call(d, inp, k1="tb", k2="fb", opts=None):
     how = inp.get("how")
     opts = dict(opts or {})
     if not how:
-        return buffer_geometry(d, time_buffer=_arg(inp, k1, "t"), freq_buffer=_arg(inp, k2, "f"), **opts)
+        with _guarding():
+            return buffer_geometry(d, time_buffer=_arg(inp, k1, "t"), freq_buffer=_arg(inp, k2, "f"), **opts)
     val = {"tb": _repr_num(frac(inp[k1]), how.get("nt", "float")), "fb": _repr_num(frac(inp[k2]), how.get("nf", "float"))}
     pos, kw = _shape({"how": how, "tb": inp[k1], "fb": inp[k2]})
-    return buffer_geometry(d, *[val[k] for k in pos], **{NAMES[k]: val[k] for k in kw}, **opts)
+    with _guarding():
+        return buffer_geometry(d, *[val[k] for k in pos], **{NAMES[k]: val[k] for k in kw}, **opts)
 
 
 def _conv(c, leaf, seq=list):
@@ -372,6 +389,57 @@ def _uncovered(outer, inner, sx, sy):
     return max(0.0, dist - float(mx.max()) * 2.0 ** -46)
 
 
+class _NonFinite(ArithmeticError):
+    """the code under test handed a geometry with infinite / NaN coordinates to shapely.buffer"""
+
+
+def _finite(geometry):
+    """GEOS can take the whole process down (segmentation fault) when it buffers a line whose coordinates are
+    infinite; such a geometry is refused with an error instead -- the call fails either way, the check survives"""
+    import numpy as np
+    import shapely
+    try:
+        ok = bool(np.isfinite(shapely.get_coordinates(geometry)).all())
+    except Exception:  # noqa: BLE001   not a geometry: shapely's own business
+        ok = True
+    if not ok:
+        raise _NonFinite("a geometry with non-finite coordinates was handed to shapely.buffer")
+
+
+class _Guard:
+    """the `shapely` module as soundevent.geometry.operations sees it during a call made by the harness: everything
+    is forwarded unchanged, except that `buffer` refuses non-finite coordinates (see `_finite`)"""
+
+    def __init__(self, real):
+        self._real = real
+
+    def __getattr__(self, name):
+        return getattr(self._real, name)
+
+    def buffer(self, geometry, distance, *a, **kw):
+        _finite(geometry)
+        return self._real.buffer(geometry, distance, *a, **kw)
+
+
+class _guarding:
+    def __enter__(self):
+        try:
+            import shapely
+            import soundevent.geometry.operations as ops
+            self.ops, self.saved = ops, getattr(ops, "shapely", None)
+            self.on = self.saved is shapely      # not while the spy (which guards itself) or a tracer stub is in place
+            if self.on:
+                ops.shapely = _Guard(shapely)
+        except Exception:  # noqa: BLE001
+            self.on = False
+        return self
+
+    def __exit__(self, *exc):
+        if self.on:
+            self.ops.shapely = self.saved
+        return False
+
+
 class _Spy:
     """wraps the `shapely` module seen by soundevent.geometry.operations: the real functions run, their
     arguments and results are kept"""
@@ -389,6 +457,7 @@ class _Spy:
         return out
 
     def buffer(self, geometry, distance, *a, **kw):
+        _finite(geometry)
         out = self._real.buffer(geometry, distance, *a, **kw)
         self.buffers.append((geometry, distance, out))
         return out
@@ -1822,7 +1891,16 @@ _VARIANT_GEOMS = {
 _NUM_VALUES = {"float": [(Fraction(3, 8), Fraction(5, 2)), (0, Fraction(5, 2)), (Fraction(3, 8), 0)],
                "np64": [(Fraction(3, 8), Fraction(5, 2)), (0, Fraction(1, 2)), (Fraction(7, 4), 0)],
                "np32": [(Fraction(1, 2), Fraction(3, 4)), (0, Fraction(3, 4)), (Fraction(1, 2), 0)],
-               "int": [(3, 5), (0, 7), (3, 0)], "npint": [(3, 5), (0, 7), (5, 0)], "bool": [(1, 1), (0, 1), (1, 0)]}
+               "int": [(3, 5), (0, 7), (3, 0)], "npint": [(3, 5), (0, 7), (5, 0)], "bool": [(1, 1), (0, 1), (1, 0)],
+               "npu8": [(1, 3), (0, 5), (3, 0)], "npu16": [(3, 300), (0, 7), (1, 0)], "npu32": [(1, 5), (0, 70000), (3, 0)],
+               "npu64": [(3, 1), (0, 7), (5, 0)], "npi8": [(3, 5), (0, 1), (7, 0)], "npi16": [(1, 300), (0, 3), (5, 0)],
+               "npi32": [(5, 3), (0, 70000), (1, 0)],
+               # binary16: buffers whose reciprocal (the scale factor of the pipeline) is exact in that type too
+               "npf16": [(Fraction(1, 2), Fraction(1, 4)), (0, 2), (Fraction(1, 8), 0)],
+               "npbool": [(1, 1), (0, 1), (1, 0)]}
+# the largest buffer of a narrow type (twice it does not fit the type any more); binary64 holds all of them exactly
+_NUM_LIMITS = {"npu8": 2 ** 8 - 1, "npi8": 2 ** 7 - 1, "npu16": 2 ** 16 - 1, "npi16": 2 ** 15 - 1, "npu32": 2 ** 32 - 1,
+               "npi32": 2 ** 31 - 1, "npu64": 2 ** 40 + 1, "npint": 2 ** 40 + 1, "npf16": 1024, "np32": 2 ** 24 - 1}
 
 
 def variant_cases(rng, full=False):
@@ -1837,6 +1915,15 @@ def variant_cases(rng, full=False):
                     if not full and j != (i + SHAPES.index(sh)) % 3:
                         continue
                     yield {**_case(g, tb, fb), "how": {"shape": sh, "nt": nt, "nf": nf}}
+        # both buffers in the same representation (two entries of one typed array), every zero / positive pattern
+        for i, nt in enumerate(NUMS):
+            for j, (tb, fb) in enumerate(_NUM_VALUES[nt]):
+                yield {**_case(g, tb, fb), "how": {"shape": SHAPES[(i + j) % len(SHAPES)], "nt": nt, "nf": nt}}
+        # buffers at the upper end of a narrow type (closed forms; points, which take buffers of any size)
+        if ty in CLOSED or ty in ("Point", "MultiPoint"):
+            for i, (nt, lim) in enumerate(sorted(_NUM_LIMITS.items())):
+                for j, (tb, fb) in enumerate([(lim, lim), (lim, 0), (0, lim)] if ty in CLOSED else [(lim, lim)]):
+                    yield {**_case(g, tb, fb), "how": {"shape": SHAPES[(i + j) % len(SHAPES)], "nt": nt, "nf": nt}}
         for k, path in enumerate(PATHS):
             for j, (tb, fb) in enumerate(_NUM_VALUES["float"]):
                 yield {**_case(g, tb, fb), "how": {"shape": SHAPES[(k + j) % len(SHAPES)], "path": path}}
